@@ -61,7 +61,7 @@ class SQLRepo:
                     self._session.delete(prop_link)
                     if delete_prop:
                         self._session.delete(prop_link.prop)
-                    self._session.commit()
+                    self._flush_deletions()
 
                 for note_tags in [
                     sql_note.areas,
@@ -72,7 +72,7 @@ class SQLRepo:
                     for tag in note_tags:  # type: ignore[attr-defined]
                         if len(tag.notes) == 1:
                             self._session.delete(tag)
-                            self._session.commit()
+                            self._flush_deletions()
 
                 self._session.delete(sql_note)
 
@@ -83,6 +83,15 @@ class SQLRepo:
             emsg = "Cannot delete zorg file since it does not exist."
             _LOGGER.debug(emsg, path=filename)
             return None
+
+    def _flush_deletions(self) -> None:
+        """Make pending deletions visible to later queries of this session.
+
+        The deletions stay part of the caller's transaction: a page is removed
+        from the DB completely or not at all.
+        """
+        self._session.flush()
+        self._session.expire_all()
 
     def get_notes_by_query(self, query: Optional[WhereOrFilter]) -> list[Note]:
         """Get note(s) from DB by using a query."""
